@@ -23,7 +23,7 @@ func (m *machine) violate(kind, id, detail string) {
 	v := &violationRec{Kind: kind, ID: id, Detail: detail}
 	// obtain a model of the current path condition (plus whatever frame the
 	// last Sat check left on the solver stack)
-	if m.solver.Check(m.pc, nil) == Sat {
+	if m.chk( nil) == Sat {
 		var ts []*Term
 		for _, n := range m.nondets {
 			ts = append(ts, n.Term)
@@ -137,8 +137,17 @@ func (e *Engine) installIntrinsics() {
 			}
 			return nil
 		}
-		if m.solver.Check(m.pc, c) == Unsat {
+		if m.model != nil && m.evalModel(c) != 0 {
+			m.addPC(c)
+			return nil
+		}
+		switch m.chk( c) {
+		case Unsat:
 			m.end("assume", "")
+		case Sat:
+			m.fetchModel()
+		default:
+			m.model = nil
 		}
 		m.addPC(c)
 		return nil
@@ -219,6 +228,12 @@ func (e *Engine) installIntrinsics() {
 	in[hp+"vfTimeInstant"] = func(m *machine, _ *frame, _ *ssa.Function, args []value) value {
 		return m.timeInstant(args[0])
 	}
+	// vfClockMaxStep(ns): assume that at most ns nanoseconds pass between two
+	// consecutive clock readings (stated as an assumption by the harness)
+	in[hp+"vfClockMaxStep"] = func(m *machine, _ *frame, _ *ssa.Function, args []value) value {
+		m.side["clockstep"] = args[0].(*Term)
+		return nil
+	}
 	in[hp+"vfHeldBy"] = func(m *machine, _ *frame, _ *ssa.Function, args []value) value {
 		return nil
 	}
@@ -279,12 +294,20 @@ func (e *Engine) installIntrinsics() {
 
 	// ---- time (clock model: Time{wall:0, ext:instant, loc:nil}) ----
 	in["time.Now"] = func(m *machine, _ *frame, _ *ssa.Function, _ []value) value {
-		t := m.newVar("i64", 64)
-		lo := m.now
-		if lo == nil {
-			lo = m.ctx.BV(1<<40, 64)
+		var t *Term
+		if m.now == nil {
+			t = m.newVar("i64", 64)
+			m.addPC(m.ctx.And(m.ctx.SLe(m.ctx.BV(1<<40, 64), t), m.ctx.SLt(t, m.ctx.BV(1<<59, 64))))
+		} else {
+			// monotone clock: previous reading plus an arbitrary non-negative step
+			d := m.newVar("i64", 64)
+			max := m.ctx.BV(1<<40, 64)
+			if st, ok := m.side["clockstep"]; ok {
+				max = st.(*Term)
+			}
+			m.addPC(m.ctx.And(m.ctx.SLe(m.ctx.BV(0, 64), d), m.ctx.SLe(d, max)))
+			t = m.ctx.Add(m.now, d)
 		}
-		m.addPC(m.ctx.And(m.ctx.SLe(lo, t), m.ctx.SLt(t, m.ctx.BV(1<<60, 64))))
 		m.now = t
 		return m.mkTime(t)
 	}
@@ -459,7 +482,7 @@ func (m *machine) assert(c *Term, id string) {
 		m.asserts = append(m.asserts, rec)
 		m.violate("assert", id, "assertion is constant false at "+m.where())
 	}
-	r := m.solver.Check(m.pc, m.ctx.Not(c))
+	r := m.chk( m.ctx.Not(c))
 	switch r {
 	case Unsat:
 		rec.Result = "discharged"
@@ -545,7 +568,9 @@ func (m *machine) uf(tag string, in []*Term, n int) []*Term {
 // part of the replay witness).
 func (m *machine) newVarHidden(kind string, w int) *Term {
 	m.w.hidden++
-	return m.ctx.Var(fmt.Sprintf("h%d_%d_%s", len(m.nondets), m.w.hidden, kind), w)
+	t := m.ctx.Var(fmt.Sprintf("h%d_%d_%s", len(m.nondets), m.w.hidden, kind), w)
+	m.hiddenVars = append(m.hiddenVars, t)
+	return t
 }
 
 func (m *machine) indexByte(s []*Term, b *Term) int {
